@@ -370,7 +370,7 @@ def build_payloads(ctx, meta, groups, npop, k_groups, quick):
             hs.append({"name": "skipdiff", "ops": skipdiff_history(rng, meta, P, nreg)})
         gs = sample_groups(rng, groups, quick, k_groups)
         for k, h in enumerate(hs):
-            hg = gs if k == 0 else sub_sample(rng, gs, 16 if quick else 48, 12 if quick else 60)
+            hg = gs if k == 0 else sub_sample(rng, gs, 12 if quick else 48, 10 if quick else 60)
             h["groups"] = [g["names"] for g in hg]
             h["_groups"] = hg
         payloads.append({"regions": regions, "histories": [{k: v for k, v in h.items() if k != "_groups"} for h in hs],
@@ -549,6 +549,7 @@ def config_cases(meta: Meta):
 
 def run_model(ctx, defs, hcases, qcases, ecases, rcases=(), tcases=(), telems=()):
     header = HEADER + "\n".join(defs) + "\n"
+    ctx.log(f"model: {len(hcases)} histories, {len(qcases)} queries, {len(rcases)} record queries")
     bad = ctx.coq_cases("config", HEADER, ecases, "chk_elem jc_current", shard=400)
     for i in bad or []:
         ctx.disagreement("config", {"case": ecases[i]}, "the universe's element metadata differs from the model's configuration")
@@ -560,8 +561,9 @@ def run_model(ctx, defs, hcases, qcases, ecases, rcases=(), tcases=(), telems=()
     bad = ctx.coq_cases("query", header, [c for c, _ in qcases], "fun c => chk_query jc_current (fst c) (snd c)", shard=shard, timeout=900)
     for i in bad or []:
         ctx.disagreement("query", qcases[i][1], "model (run_plan) and implementation (Butler.query().data_ids()) return different rows")
+    ctx.log("model: histories and queries evaluated")
     # the pruned enumeration used above against the model's own brute-force definition, where that is affordable
-    small = [(c, i) for c, i in qcases if len(i["dimensions"]) <= 8]
+    small = [(c, i) for c, i in qcases if len(i["dimensions"]) <= (7 if ctx.quick else 8)]
     bad = ctx.coq_cases("fast", header, [c for c, _ in small], "fun c => chk_fast jc_current (fst c) (snd c)",
                         shard=max(50, (len(small) + 3) // 4), timeout=900)
     for i in bad or []:
@@ -573,11 +575,14 @@ def run_model(ctx, defs, hcases, qcases, ecases, rcases=(), tcases=(), telems=()
                             shard=max(50, (len(rcases) + 3) // 4), timeout=900)
         for i in bad or []:
             ctx.disagreement("records", rcases[i][1], "model (qrecords) and implementation (Butler.query_dimension_records) return different records")
-        bad = ctx.coq_cases("rfast", header, [c for c, _ in rcases], "fun c => chk_rfast jc_current (fst c) (snd c)",
-                            shard=max(50, (len(rcases) + 3) // 4), timeout=900)
+        # the pruned evaluation against the definition `qrecords`: quick tier on the plain history of every population
+        rsmall = [rc for rc in rcases if not ctx.quick or rc[1]["history"] == "plain"]
+        bad = ctx.coq_cases("rfast", header, [c for c, _ in rsmall], "fun c => chk_rfast jc_current (fst c) (snd c)",
+                            shard=max(50, (len(rsmall) + 3) // 4), timeout=900)
         for i in bad or []:
-            ctx.disagreement("fast-evaluator-records", rcases[i][1], "JoinCheck.fqrecords differs from Join.qrecords (checker machinery)")
+            ctx.disagreement("fast-evaluator-records", rsmall[i][1], "JoinCheck.fqrecords differs from Join.qrecords (checker machinery)")
         ctx.hist("model", "record queries evaluated in the model", len(rcases))
+        ctx.log("model: record queries evaluated")
     if telems:
         bad = ctx.coq_cases("tconfig", HEADER, list(telems), "chk_telem jc_current", shard=400)
         for i in bad or []:
@@ -689,7 +694,9 @@ def _main(ctx: Ctx, quick: bool, model: bool = True):
         d["egroups"] = egroups
     if payloads:
         payloads[0]["temporal_joins"] = True
+    ctx.log(f"implementation: {len(payloads)} populations x {sum(len(p['histories']) for p in payloads)} histories")
     results = parallel_workers("c06_impl", "run_population", payloads, timeout=900 if quick else 2400)
+    ctx.log("implementation: done")
     for pi, (pl, d, (stt, res)) in enumerate(zip(payloads, descr, results)):
         if stt != "ok":
             ctx.tie_broken("harness", "worker", f"population {pi}: {stt}: {str(res)[:400]}")
